@@ -49,8 +49,17 @@ class PointTopology:
         cols_extend = cols.extend
         u_extend = u.extend
 
+        # Every node has a row, whether or not it is referenced by the
+        # connectivity array. (Looping over the unique values of the
+        # connectivity array would skip unreferenced nodes, and would
+        # include the masked element of a padded array.) The node
+        # identities are one-based here.
+        n_nodes = self.shape[0]
+        if isnan(n_nodes):
+            n_nodes = int(largest_node_id)
+
         # WARNING (TODO): This loop is a potential performance bottleneck.
-        for node in np.unique(node_connectivity).tolist():
+        for node in range(1, n_nodes + 1):
             # Find the collection of all nodes that are joined to this
             # node via links in the mesh, including this node itself
             # (which will be at the start of the list).
